@@ -12,8 +12,10 @@ EXTENDS FsBase
 
 AllDevs == {"C20.failed_enter_leaves_patched", "C20.unloaded_target_keeps_mock"}
 
-OkKinds == {"std", "fromimport", "unloaded"}
-BadKinds == {"nomodule", "noattr", "notsnow"}
+\* alias: the connector's connect bound under another name in the target module (replaced like any other binding);
+\* notsnow_named: a foreign function that merely is called connect (refused like any non-snowflake function)
+OkKinds == {"std", "fromimport", "unloaded", "alias"}
+BadKinds == {"nomodule", "noattr", "notsnow", "notsnow_named"}
 InitSt == [in |-> FALSE, kind |-> "std", conns |-> 0, poisoned |-> FALSE, stale |-> FALSE]
 
 \* ---- observations ----
@@ -59,7 +61,7 @@ TargetForms == {"SCRIPT", "-m MOD", "--module MOD", "--module=MOD", "-mMOD"}
 RestToks == {"val", "-x", "--", "-m", "-d", "--db_path=zzz", "other.py"}
 Ops(st) ==
   (IF ~st.in THEN [k : {"enter"}, kind : OkKinds \cup BadKinds]
-   ELSE [k : {"enter"}, kind : {"std", "fromimport"}] \cup [k : {"exit"}, mode : {"ok", "raise"}]
+   ELSE [k : {"enter"}, kind : {"std", "fromimport", "notsnow_named"}] \cup [k : {"exit"}, mode : {"ok", "raise"}]
         \cup (IF st.conns < MaxConns THEN [k : {"connect"}] ELSE {}))
   \cup (IF ~st.in /\ ~st.stale THEN [k : {"argv"}, opts : SeqsUpTo(OptForms, MaxOpts), target : TargetForms, rest : SeqsUpTo(RestToks, MaxRest)] ELSE {})
 
